@@ -76,6 +76,32 @@ Theorem C47_client_id_is_hash_of_key :
 Proof. exact hf_client_id_sites. Qed.
 Print Assumptions C47_client_id_is_hash_of_key.
 
+(* the stored key is the hashed key: no method of Client (generated list of all writes to PublicKey /
+   PublicKeyBytes / ID) leaves a field changed without recomputing id := Hash(decode PublicKey) ... *)
+Theorem C47_client_key_writes_recompute :
+  forallb he_pkrule_ok hf_client_key_writes = true /\ hf_client_key_writes <> [].
+Proof. exact (conj hf_client_key_writes_ok hf_client_key_writes_nonempty). Qed.
+Print Assumptions C47_client_key_writes_recompute.
+
+(* ... so after any sequence of key settings (SetPublicKey, ComputeProperties after decode, Copy/Clone)
+   id = Hash(decode(stored PublicKey)) *)
+Theorem C47_client_id_is_hash_of_stored_key : forall decode Hash ks s,
+  cl_consistent decode Hash s -> cl_consistent decode Hash (cl_run decode Hash s ks).
+Proof. exact cl_run_consistent. Qed.
+Print Assumptions C47_client_id_is_hash_of_stored_key.
+
+Theorem C47_client_first_key_makes_consistent : forall decode Hash s k b, decode k = Some b ->
+  cl_consistent decode Hash (cl_set_public_key decode Hash s k).
+Proof. exact cl_set_public_key_fresh. Qed.
+Print Assumptions C47_client_first_key_makes_consistent.
+
+(* why the translator must flag a key replaced after the id was computed *)
+Theorem C47_client_stale_key_breaks_id : forall decode Hash norm s k b b',
+  decode k = Some b -> decode (norm k) = Some b' -> Hash b <> Hash b' ->
+  ~ cl_consistent decode Hash (cl_set_public_key_stale decode Hash norm s k).
+Proof. exact cl_stale_inconsistent. Qed.
+Print Assumptions C47_client_stale_key_breaks_id.
+
 Theorem C47_client_validate : forall id key_hash,
   cl_validate id key_hash = true <-> (id <> ""%string /\ id = key_hash).
 Proof. exact cl_validate_spec. Qed.
